@@ -337,10 +337,13 @@ def gen_cdm(r, exact=False, contrast=None):
     if contrast is None:
         contrast = r.random() < (0.25 if exact else 0.45)
     if contrast:
-        length, width = (r.choice([3, 4, 5, 6]), r.choice([1, 1, 2])) if exact else \
+        # (exact slice: the Q model does not normalise fractions, so lines stay short)
+        length, width = (r.choice([3, 4]), r.choice([1, 1, 2])) if exact else \
                         (r.choice([3, 4, 5, 6, 8, 10]), r.choice([1, 2, 3]))
         fr, fk = gen_contrast(r, direction, length, width)
         shape = (len(fr), len(fr[0]))
+        if exact:
+            n = min(n, 2)
     p = dict(kind="cdm", direction=direction, frame=fr, fk=fk, exact=exact)
     if exact:
         # beta = 1, g dyadic; capture / release factors at the exact ends {0, 1} or (small frames) general
